@@ -61,7 +61,9 @@ UNIVERSAL_FRAME_PROPS = {"C19": None,      # no undeclared global reads / writes
 
 # a property whose argument rests on another one (DESIGN 5/C20: "every value is paid at most once" is C05) is also decided
 # by that property's obligations
-PROP_DEPENDS = {"C20": ("C05",)}
+# C16's last clause ("replaying that sequence on the real environment ends with the terminal flag set") is a statement about
+# the dynamics: the plan exists by the liveness clauses of C01 / C02 / C03 and ends the episode by C06's terminal flag
+PROP_DEPENDS = {"C20": ("C05",), "C16": ("C01", "C02", "C03", "C06")}
 
 
 def _counts_for(prop, tags):
